@@ -18,9 +18,9 @@ LEVEL_TEXT = ("static analysis: (D1) copy-on-write lost-write rule over cnvlib/s
               "property / column / indexing temporary never reaches the table on pandas >= 3) plus a positive must-flow: in transfer_fields "
               "the first bin's start (cnarr.start.iat[0]) reaches a store into column `start` of the segments' own frame and the last bin's "
               "end a store into column `end`; (D2) the index labels yielded by iter_slices index ndarrays in transfer_fields only because "
-              "the bin frame is reset_index()ed first, and the HMM state series is built on the bins' own index; (D3) transfer_fields "
+              "the bin frame is reset_index()ed first, and segment_hmm, interpreted with the model / decoding stubbed, hands squash_by_groups the bins with their own (unsmoothed) log2, one probe each, and a state series on the bins' own index; (D3) transfer_fields "
               "interpreted on symbolic bins: per segment weight = sum of bin weights, depth = weight-averaged depth (0 when the weights sum "
-              "to 0; plain count / mean without a weight column), gene = ordered distinct names outside the ignored / antitarget names, "
+              "to 0; plain count / mean without a weight column), gene = ordered distinct names outside the ignored / antitarget names (a name recurring after another gene is listed once), "
               "over iter_slices(bins, segments, 'outer', keep_empty=False) taken after the endpoints were stretched (so filtered edge bins are included); segment_none: first start, last end, probes = number of bins, "
               "log2 = segment_mean (weight-averaged, plain mean when no weight is positive); (D4) every name in SEGMENT_METHODS selects "
               "a branch of _do_segmentation (none falls through to the error), the CLI choices are that tuple, none/haar/cbs run per arm "
